@@ -14,6 +14,7 @@ import (
 func (r *Receiver) VerifPrepare(instances ...string) {
 	r.mu.Lock()
 	defer r.mu.Unlock()
+	verifRetrying = map[string]bool{}
 	for _, inst := range instances {
 		if _, ok := r.downloadersByInstance[inst]; !ok {
 			r.downloadersByInstance[inst] = &Downloader{r: r, l: r.l, c: r.c, instance: inst, lmdbname: r.lmdbname,
@@ -22,9 +23,15 @@ func (r *Receiver) VerifPrepare(instances ...string) {
 	}
 }
 
+// verifRetrying: downloaders that are inside Run's retry loop (a Load failed and the
+// downloader sleeps before trying the latest seen snapshot again).
+var verifRetrying = map[string]bool{}
+
 // VerifPlay lists the bucket (as Receiver.Run would) and plays one round of every
-// downloader's loop body: the newest snapshot of every instance that was not delivered
-// yet is downloaded and made available to Next(). Returns the number of deliveries.
+// downloader's Run loop, statement by statement: a downloader acts when it was notified or
+// when it is still retrying after a failed load; it re-reads lastSeenByInstance, stops when
+// the instance disappeared or the newest snapshot was already processed, and otherwise
+// makes one LoadOnce attempt. Returns the number of deliveries.
 func (r *Receiver) VerifPlay(ctx context.Context, list bool, includingOwn bool) int {
 	if list {
 		if err := r.RunOnce(ctx, includingOwn); err != nil {
@@ -33,7 +40,7 @@ func (r *Receiver) VerifPlay(ctx context.Context, list bool, includingOwn bool) 
 	}
 	r.mu.Lock()
 	var insts []string
-	for inst := range r.lastSeenByInstance {
+	for inst := range r.downloadersByInstance {
 		insts = append(insts, inst)
 	}
 	r.mu.Unlock()
@@ -42,23 +49,32 @@ func (r *Receiver) VerifPlay(ctx context.Context, list bool, includingOwn bool) 
 	for _, inst := range insts {
 		r.mu.Lock()
 		d := r.downloadersByInstance[inst]
-		ni := r.lastSeenByInstance[inst]
 		r.mu.Unlock()
-		if d == nil || ni.FullName == d.last.FullName {
-			continue
-		}
-		if !includingOwn && inst == r.ownInstance {
-			continue
-		}
-		// drain the notification like Run does
+		signalled := false
 		select {
 		case <-d.newSnapshotSignal:
+			signalled = true
 		default:
 		}
-		if err := d.LoadOnce(ctx, ni); err == nil {
-			d.last = ni
-			n++
+		if !signalled && !verifRetrying[inst] {
+			continue
 		}
+		verifRetrying[inst] = false
+		r.mu.Lock()
+		ni, exists := r.lastSeenByInstance[inst]
+		r.mu.Unlock()
+		if !exists {
+			continue // "this instance no longer has any snapshots": wait for a signal
+		}
+		if ni.FullName == d.last.FullName {
+			continue // already processed the most recent one
+		}
+		if err := d.LoadOnce(ctx, ni); err != nil {
+			verifRetrying[inst] = true // sleep, then retry
+			continue
+		}
+		d.last = ni
+		n++
 	}
 	return n
 }
